@@ -2,6 +2,7 @@ package main
 
 import (
 	"fmt"
+	"math/big"
 	"strings"
 
 	"github.com/cockroachdb/apd/v3"
@@ -162,7 +163,46 @@ func (rn *runner) streamModes(g *gen) {
 		default:
 			xx := g.decimal(c, false)
 			yy := g.variant(c, xx)
+			if g.r.Intn(3) == 0 && xx.Form == apd.Finite {
+				xx, yy = g.monoTwins(c)
+			}
 			rn.relCase("mono", "round", c, xx, yy, 0)
 		}
 	}
+}
+
+// monoTwins returns two decimals that are equal or differ by one unit hundreds of digits down: a short one
+// (Precision+1..+3 digits, the first discarded digit chosen around the half) and the same digits followed
+// by k zeros, plus or minus one in the last place, with k up to and beyond the size of the package's
+// power-of-ten table. Rounding must order them as their values are ordered, whatever path the long one takes.
+func (g *gen) monoTwins(c *apd.Context) (*apd.Decimal, *apd.Decimal) {
+	p := int(c.Precision)
+	if p < 1 {
+		p = 1
+	}
+	var sb strings.Builder
+	sb.WriteByte(byte('1' + g.r.Intn(9)))
+	for i := 1; i < p; i++ {
+		sb.WriteByte(byte('0' + g.r.Intn(10)))
+	}
+	sb.WriteByte("0145569"[g.r.Intn(7)])
+	for i := g.r.Intn(3); i > 0; i-- {
+		sb.WriteByte("0059"[g.r.Intn(4)])
+	}
+	co, _ := new(big.Int).SetString(sb.String(), 10)
+	x := new(apd.Decimal)
+	x.Coeff.SetMathBigInt(co)
+	x.Exponent = int32(g.r.Intn(41) - 20)
+	x.Negative = g.r.Intn(4) == 0
+	k := int(g.pick(1, 2, 30, 126, 127, 128, 129, 130, 131, 200, 260))
+	lo := new(big.Int).Mul(co, pow10(k))
+	lo.Add(lo, big.NewInt(g.pick(0, 0, 1, -1)))
+	y := new(apd.Decimal)
+	y.Coeff.SetMathBigInt(lo)
+	y.Exponent = x.Exponent - int32(k)
+	y.Negative = x.Negative
+	if g.r.Intn(2) == 0 {
+		return y, x
+	}
+	return x, y
 }
